@@ -211,6 +211,12 @@ def exportEnt (alive : V → Bool) (e : Ent) : Except Err (List Tag) :=
 
 def sAcDbXrecord : List Nat := [65, 99, 68, 98, 88, 114, 101, 99, 111, 114, 100]   -- "AcDbXrecord"
 
+/-- the validator / fixer of the `cloning` attribute: an integer 0..5, anything else becomes the default 1 -/
+def fixCloning (v : V) : V :=
+  match v with
+  | .str [c] => if 48 ≤ c ∧ c ≤ 53 then v else .str [49]
+  | _ => .str [49]
+
 /-- `XRecord.load_dxf_attribs`: (dxf.cloning, self.tags) from `processor.subclasses[1:]`; `none` = DXFStructureError
     "Missing subclass AcDbXrecord".  The first tag of the subclass is the marker, the second the cloning flag 280 (default 1). -/
 def xrecordPayload (keepLater : Bool) (subs : List (List Tag)) : Option (V × List Tag) :=
@@ -218,16 +224,16 @@ def xrecordPayload (keepLater : Bool) (subs : List (List Tag)) : Option (V × Li
   | [] => none
   | s1 :: later =>
     let hd : V × Nat := match s1 with
-      | _ :: t :: _ => if t.code == 280 then (t.val, 2) else (.str [49], 1)
+      | _ :: t :: _ => if t.code == 280 then (fixCloning t.val, 2) else (.str [49], 1)
       | _ => (.str [49], 1)
     some (hd.1, s1.drop hd.2 ++ (if keepLater then later.flatten else []))
 
 /-- `DXFEntity.export_dxf` of an XRecord: generic base class, `XRecord.export_entity`, XDATA (embedded objects are not kept) -/
 def exportXRecord (alive : V → Bool) (e : Ent) : Except Err (List Tag) :=
-  match reactorsPart e.reactors, xrecordPayload xrecordKeepsLaterSubclasses e.subs with
-  | .error x, _ => .error x
-  | .ok _, none => .error .noType
-  | .ok re, some (cl, payload) =>
+  match xrecordPayload xrecordKeepsLaterSubclasses e.subs, reactorsPart e.reactors with
+  | none, _ => .error .noType          -- raised while loading
+  | some _, .error x => .error x
+  | some (cl, payload), .ok re =>
     .ok (entityOrder.flatMap fun
       | .base => ⟨structureMarker, e.typ⟩ :: baseOrder.flatMap (basePart alive e re)
       | .entity => ⟨100, .str sAcDbXrecord⟩ :: ⟨280, cl⟩ :: payload
